@@ -189,12 +189,12 @@ Import String.
 Open Scope string_scope.
 (* (operation, kind) pairs whose visitor arm is an unbounded native recursion on the pinned tree:
    - hashing (impl Hash for SteelVal) recurses through every container kind;
-   - format_with_cycles formats hash maps, hash sets, `Boxed` and boxes (HeapAllocated) through Debug/Display of the nested value, which
+   - format_with_cycles formats hash maps, hash sets and `Boxed` through Debug/Display of the nested value, which
      starts a fresh detector with depth 0 (the other container arms recurse under the depth > 128 guard);
    - the equality arms of transducers, reducers, syntax objects expand without the visited check (equal_guard). *)
 Definition expected_rec : list (string * string) := [
   ("equal_guard", "IterV"); ("equal_guard", "ReducerV"); ("equal_guard", "SyntaxObject");
-  ("print_format", "HashMapV"); ("print_format", "HashSetV"); ("print_format", "Boxed"); ("print_format", "HeapAllocated");
+  ("print_format", "HashMapV"); ("print_format", "HashSetV"); ("print_format", "Boxed");
   ("hash", "VectorV"); ("hash", "HashMapV"); ("hash", "HashSetV"); ("hash", "CustomStruct");
   ("hash", "IterV"); ("hash", "ReducerV"); ("hash", "ListV"); ("hash", "Pair"); ("hash", "MutableVector");
   ("hash", "SyntaxObject"); ("hash", "Boxed"); ("hash", "HeapAllocated")
